@@ -1,5 +1,10 @@
 import XmppModel.Model.Correlate
 import XmppModel.Lemmas.Correlate
+import XmppModel.Model.Muc
+import XmppModel.Lemmas.Muc
+import XmppModel.Model.IbbReader
+import XmppModel.Model.IbbClose
+import XmppModel.Generated.C06
 /-!
 # C06 — every correlated wait ends exactly once with its own reply or its context error
 
@@ -51,13 +56,50 @@ theorem C06_ctx_error_only_if_cancelled {cfg s s'} {i : Nat}
 /-! ### own reply, single delivery -/
 
 /-- a held response was made from a peer stanza of type result/error with the caller's id and
-stanza kind -/
+the caller's stanza kind (local name) — whatever namespace form the request was sent with — and
+whose namespace is the request's, or any if the request carried none -/
 theorem C06_own_reply {cfg s} (hr : Reach cfg s) {i k : Nat} (h : (s.rpc i).held = some k) :
-    ∃ st, s.hist[k]? = some st ∧ st.resp = true ∧ st.id = cfg.ids i ∧ st.kind = cfg.kinds i := by
+    ∃ st, s.hist[k]? = some st ∧ st.resp = true ∧ st.id = cfg.ids i ∧ st.kind = cfg.kinds i ∧
+      (cfg.spaces i = st.ns ∨ cfg.spaces i = .empty) := by
   have hB := (inv_reach hr).2
   obtain ⟨⟨hlt, hm⟩, _, _⟩ := hB.holdMatch i k h
-  refine ⟨s.hist[k], by simp [hlt], ?_⟩
-  exact hm _ (by simp [hlt])
+  have hget : s.hist[k]? = some s.hist[k] := by simp [hlt]
+  refine ⟨s.hist[k], hget, ?_⟩
+  have := hm _ hget
+  refine ⟨this.1, this.2.1, this.2.2.1, ?_⟩
+  have hn := this.2.2.2
+  simp only [nsMatch, Bool.or_eq_true, beq_iff_eq] at hn
+  exact hn
+
+/-- kind equality for every namespace form of the request, stated on the lookup itself: a
+stanza of another kind never matches, not even when the namespaces are equal -/
+theorem C06_lookup_kind {cfg s st j} (h : lookup cfg s st = some j) :
+    cfg.kinds j = st.kind ∧ st.resp = true ∧ s.table st.id = some j ∧
+    (cfg.spaces j = st.ns ∨ cfg.spaces j = .empty) := by
+  have := lookup_some h
+  refine ⟨this.2.2.1, this.1, this.2.1, ?_⟩
+  have hn := this.2.2.2
+  simp only [nsMatch, Bool.or_eq_true, beq_iff_eq] at hn
+  exact hn
+
+example : lookup { ids := fun i => i, kinds := fun _ => .iq, derived := true, spaces := fun _ => .stream }
+    { init with table := fun _ => some 0 } ⟨.message, 0, true, .stream⟩ = none := by
+  simp [lookup]
+example : lookup { ids := fun i => i, kinds := fun _ => .iq, derived := true, spaces := fun _ => .stream }
+    { init with table := fun _ => some 0 } ⟨.iq, 0, true, .stream⟩ = some 0 := by
+  simp [lookup, nsMatch]
+example : lookup { ids := fun i => i, kinds := fun _ => .iq, derived := true, spaces := fun _ => .other }
+    { init with table := fun _ => some 0 } ⟨.iq, 0, true, .stream⟩ = none := by
+  simp [lookup, nsMatch]
+
+/-- only result/error stanzas consult the table: any other stanza (an incoming get/set IQ, a
+chat message, an available presence) goes to the handler even if its id is that of a pending
+request, and every waiter keeps waiting -/
+theorem C06_only_responses_consult_table {cfg s st} (hidle : s.spc = .idle) (hn : st.resp = false) :
+    ∃ s', step cfg s (.read st) = some s' ∧ s'.hlog = s.hist.length :: s.hlog ∧ s'.spc = .idle ∧
+      s'.rpc = s.rpc ∧ s'.table = s.table := by
+  have hl : lookup cfg s st = none := by simp [lookup, hn]
+  simp [step, hidle, hl]
 
 /-- a response reaches at most one caller … -/
 theorem C06_single_delivery {cfg s} (hr : Reach cfg s) {i i' k : Nat}
@@ -73,7 +115,8 @@ theorem C06_delivery_exclusive {cfg s} (hr : Reach cfg s) {i k : Nat}
 
 /-- "nobody waits" = no entry of that id and stanza name at lookup time -/
 theorem C06_lookup_none_iff {cfg s st} :
-    lookup cfg s st = none ↔ ¬ (st.resp = true ∧ ∃ j, s.table st.id = some j ∧ cfg.kinds j = st.kind) := by
+    lookup cfg s st = none ↔
+      ¬ (st.resp = true ∧ ∃ j, s.table st.id = some j ∧ cfg.kinds j = st.kind ∧ nsMatch (cfg.spaces j) st.ns = true) := by
   unfold lookup
   split
   · split
@@ -210,18 +253,18 @@ def cfgSnapshot : Cfg := { ids := fun i => i, kinds := fun _ => .iq, derived := 
 theorem C06_progress_serve_fails_without_fix :
     ¬ (∀ s, Reach cfgSnapshot s → ServeProgress cfgSnapshot s) := by
   intro h
-  have hr : ∃ s, run cfgSnapshot init [.call 0, .read ⟨.iq, 0, true⟩, .sendFail 0, .dereg 0] = some s := by
-    simp [run, step, init, lookup, upd, cfgSnapshot]
+  have hr : ∃ s, run cfgSnapshot init [.call 0, .read ⟨.iq, 0, true, .stream⟩, .sendFail 0, .dereg 0] = some s := by
+    simp [run, step, init, lookup, upd, cfgSnapshot, nsMatch]
   obtain ⟨s, hs⟩ := hr
   have := h s (reach_run Reach.init hs)
-  simp [run, step, init, lookup, upd, cfgSnapshot] at hs
+  simp [run, step, init, lookup, upd, cfgSnapshot, nsMatch] at hs
   subst hs
   simp [ServeProgress, step, ctxDone, upd, cfgSnapshot] at this
 
 /-- the same schedule is harmless in the repaired code -/
 example : ∃ s, run { cfgSnapshot with derived := true } init
-    [.call 0, .read ⟨.iq, 0, true⟩, .sendFail 0, .dereg 0, .abandon] = some s ∧ s.spc = .idle := by
-  simp [run, step, init, lookup, upd, cfgSnapshot, ctxDone]
+    [.call 0, .read ⟨.iq, 0, true, .stream⟩, .sendFail 0, .dereg 0, .abandon] = some s ∧ s.spc = .idle := by
+  simp [run, step, init, lookup, upd, cfgSnapshot, ctxDone, nsMatch]
 
 /-! ### receipts helper -/
 open Receipts
@@ -263,5 +306,81 @@ theorem C06_receipts_outcome_stable {ids s a s'} {i : Nat} {ok : Bool}
     (hs : rstep ids s a = some s') (h : s.wpc i = .done ok) : s'.wpc i = .done ok := by
   cases a <;> simp only [rstep] at hs <;> (try split at hs) <;> (try split at hs) <;>
     (try simp at hs) <;> (try subst hs) <;> simp only [upd] at * <;> grind
+
+/-! ### the MUC and in-band bytestream helpers (instances over the LTSs of C18 / C15)
+
+`Join`, `Leave`, `Read` and `Close` are the extension calls that block on a correlated event.
+The statements below are the C06 clauses (one outcome per call, the call can always end, the
+serve loop is not left waiting) on those models; the models are tied to the code by the C18 / C15
+histories, which the C06 runner replays as well. -/
+section Helpers
+open XmppModel.Muc in
+/-- MUC join: the result of a finished `Join` call only changes when the next call starts -/
+theorem C06_muc_join_one_outcome {s a s'} (hs : Muc.step s a = some s') {c : Nat} {o : Muc.JOut}
+    (h : s.lastJoin c = some o) (hidle : s.jpc c = .idle) (hn : ∀ x, a ≠ .joinStart c x) :
+    s'.lastJoin c = some o := by
+  cases a <;> simp only [Muc.step] at hs <;> (try split at hs) <;> (try split at hs) <;> (try split at hs) <;>
+    (try simp at hs) <;> (try subst hs) <;> (try simp only [Muc.upd] at *) <;> grind
+
+open XmppModel.Muc in
+/-- MUC join: a pending call can always end — with the error reply, with its context, and with
+the self-presence as soon as that arrives -/
+theorem C06_muc_join_progress {s} {c : Nat} (hp : s.jpc c = .pending) :
+    (Muc.step s (.joinError c)).isSome ∧ (Muc.step s (.joinCancel c)).isSome ∧
+    (s.managed (s.req c) = some c → ∃ s', Muc.step s (.avail (s.req c)) = some s' ∧ s'.jpc c = .idle ∧
+      s'.lastJoin c = some .ok) := by
+  refine ⟨by simp [Muc.step, hp], by simp [Muc.step, hp], ?_⟩
+  intro hm; simp [Muc.step, hm, hp, Muc.upd]
+
+open XmppModel.Muc in
+/-- MUC join: the hand-off never leaves the presence handler (the serve loop) waiting: a presence
+is one step whatever the state of the joiner (it either completes the join or is an ordinary
+occupant presence) -/
+theorem C06_muc_presence_never_blocks (s : Muc.St) (a : Nat) :
+    (Muc.step s (.avail a)).isSome ∧ (Muc.step s (.unavail a)).isSome := by
+  constructor
+  · simp only [Muc.step]; split <;> (try split) <;> simp
+  · simp only [Muc.step]; split <;> (try split) <;> simp
+
+open XmppModel.Muc in
+/-- MUC leave: a waiting call can always end, and it ends with success exactly by consuming the
+signal of the unavailable presence, which is never lost (`C18_token_kept`) -/
+theorem C06_muc_leave_progress {s} {c : Nat} (hw : s.lpc c = .waiting) :
+    (Muc.step s (.leaveError c)).isSome ∧ (Muc.step s (.leaveCancel c)).isSome ∧
+    (s.depart c = true → (Muc.step s (.leaveDepart c)).isSome) := by
+  refine ⟨by simp [Muc.step, hw], by simp [Muc.step, hw], ?_⟩
+  intro h; simp [Muc.step, hw, h]
+
+open XmppModel.IbbReader in
+/-- IBB read: the reader's invariant (a waiting reader with data buffered or a closed stream has a
+signal pending), hence a blocked `Read` can always return when there is something to return -/
+theorem C06_ibb_read_progress {s} (hr : IbbReader.Reach true s) (hw : s.rpc = .waiting)
+    (hd : s.buf > 0 ∨ s.closed = true) : (IbbReader.step true s .wake).isSome := by
+  have inv : ∀ {s}, IbbReader.Reach true s →
+      ((s.rpc = .checked ∨ s.rpc = .waiting) → (s.buf > 0 ∨ s.closed = true) → s.tok = true) := by
+    intro s hr
+    induction hr with
+    | init => intro h; simp [IbbReader.init] at h
+    | step _ hs ih =>
+      rename_i s0 s1 a _
+      cases a <;> simp only [IbbReader.step] at hs
+      case packet n => simp at hs; subst hs; simp
+      case close => simp at hs; subst hs; simp
+      all_goals
+        ((try split at hs) <;> (try split at hs) <;> (try simp at hs) <;> (try subst hs) <;>
+          (try (simp only [IbbReader.test] at *; (repeat' split) <;> simp_all <;> omega)))
+  have ht := inv hr (Or.inr hw) hd
+  simp [IbbReader.step, hw, ht]
+
+open XmppModel.IbbClose in
+/-- IBB close: over the control points regenerated from `ibb/conn.go`, `Close` and the
+peer-initiated close take the receiving side down on every exit path, so no `Read` stays blocked
+behind a `Close` that failed half way -/
+theorem C06_ibb_close_ends_read :
+    (Generated.C06.closeProgram.bind parseProgram).map alwaysClosesRead = some true ∧
+    (Generated.C06.closeNoNotifyProgram.bind parseProgram).map alwaysClosesRead = some true := by
+  decide
+
+end Helpers
 
 end XmppModel.Props.C06
